@@ -35,7 +35,7 @@ class C06(CheckBase):
         if getattr(self, "replay_mode", False):
             return
         shipped = [s for s in toolsim.shipped_schemas() if s[2] > 0]
-        pick = shipped if tier == "thorough" else shipped[:4] + [s for s in shipped if s[0] in ("ap203", "ifc2x3")][:1]
+        pick = shipped if tier == "thorough" else shipped[:4] + [s for s in shipped[4:] if s[0] in ("ap203", "ifc2x3")][:1]
         for name, path, size in pick:
             with open(path, "rb") as f:
                 self.valid.append((name, f.read().decode("latin-1")))
@@ -93,7 +93,7 @@ class C06(CheckBase):
 
     def run(self, plan):
         text, fired, where = faults.apply_all_express(plan["schema_text"], plan["faults"])
-        cpu = 10 + len(text) // 1000000 + 1
+        cpu = 10 + len(text) // 1000 + 1          # 10 s + 1 ms per input byte: generous on purpose - CPU time inflates under load
         o = toolsim.run_tool("san", plan["tool"], plan["schema"], text, {"heap_seed": None}, args=plan["args"], cpu_s=cpu, shared_dir=False)
         return {"rc": o["rc"], "sig": o["sig"], "timed_out": o["timed_out"], "stderr": o["stderr"], "stdout": o["stdout"][-500:], "n_files": o["n_files"],
                 "fired": fired, "where": where, "changed": text != plan["schema_text"], "len": len(text)}
